@@ -134,6 +134,7 @@ def errName : Err → String
   | .unsupportedFormat => "unsupported-format"
   | .unsupportedType => "unsupported-type"
   | .fieldNotRecognized i => s!"field-not-recognized {i}"
+  | .notAList => "not-a-list"
   | .decode => "decode"
 
 def renderMsgRes : Res Msg → String
